@@ -81,6 +81,12 @@ def redact_claims(claims: Mapping[str, object]) -> dict[str, object]:
     this token?" is a question worth answering from an audit log; "what was
     it?" is not.
 
+    Structured claims are searched too: a mapping or list value is walked, and
+    a sensitive name is redacted at whatever depth it occurs (``{"user":
+    {"email": ...}}``, ``{"identities": [{"access_token": ...}]}``).  Keys
+    stay visible at every level; a value under a sensitive name is replaced
+    whole, whatever its type.
+
     Args:
         claims: The authenticated principal's claims.
 
@@ -88,7 +94,32 @@ def redact_claims(claims: Mapping[str, object]) -> dict[str, object]:
         A new dict with the same keys, sensitive values replaced.
 
     """
-    return {k: (REDACTED if _DEFAULT_CLAIM_REDACT_RE.search(k) else v) for k, v in claims.items()}
+    return {k: (REDACTED if _is_sensitive_claim_name(k) else _redact_nested(v)) for k, v in claims.items()}
+
+
+def _is_sensitive_claim_name(name: object) -> bool:
+    """Return whether *name* is a claim name whose value must be redacted."""
+    return isinstance(name, str) and _DEFAULT_CLAIM_REDACT_RE.search(name) is not None
+
+
+def _redact_nested(value: object) -> object:
+    """Redact sensitive names inside a structured claim value.
+
+    Args:
+        value: A claim value: a scalar, or a mapping / list / tuple of claim values.
+
+    Returns:
+        *value* itself when it is a scalar; otherwise a copy in which every
+        value stored under a sensitive name, at any depth, is :data:`REDACTED`.
+
+    """
+    if isinstance(value, Mapping):
+        return {k: (REDACTED if _is_sensitive_claim_name(k) else _redact_nested(v)) for k, v in value.items()}
+    if isinstance(value, list):
+        return [_redact_nested(v) for v in value]
+    if isinstance(value, tuple):
+        return tuple(_redact_nested(v) for v in value)
+    return value
 
 
 def no_redaction(claims: Mapping[str, object]) -> dict[str, object]:
